@@ -458,6 +458,15 @@ def bounded(payload):
             run({"phases": [{"name": "p", "next": "p", "stmts": st}], "initial": "p"}, "formatting_characters")
             run({"phases": [{"name": "p", "next": "p", "stmts": st + [{"id": "s9", "kind": "switch:{gone}", "deps": []}]}],
                  "initial": "p"}, "formatting_characters")
+    # the same statement ids in two phases (ids are unique within a phase only), one of the switches goes nowhere
+    for bad_first in (True, False):
+        for names in (("first", "second"), ("b", "a")):
+            t1, t2 = ("nowhere", names[0]) if bad_first else (names[1], "nowhere")
+            run({"phases": [{"name": names[0], "next": names[1], "stmts": [{"id": "s0", "kind": "assign", "deps": []},
+                                                                          {"id": "switch", "kind": "switch:" + t1, "deps": ["s0"]}]},
+                            {"name": names[1], "next": names[0], "stmts": [{"id": "s0", "kind": "assign", "deps": []},
+                                                                          {"id": "switch", "kind": "switch:" + t2, "deps": ["s0"]}]}],
+                 "initial": names[0]}, "same_ids_in_two_phases")
     # phase objects whose own name differs from the key they are stored under: targets are looked up among the keys
     for keys, objs in ((("primary",), ("main",)), (("primary", "other"), ("main", "primary")), (("a", "b"), ("b", "a"))):
         for tgt in sorted(set(keys) | set(objs) | {"nowhere"}):
